@@ -37,6 +37,9 @@ def shards(tier, seed):
     out = [{"name": f"history:{i}", "part": "history", "K": 4 if q else 8, "scale": 1 if q else 4, "cultures": i == 0} for i in range(3 if q else 8)]
     out += [{"name": f"concurrent:{i}", "part": "conc", "trials": 3 if q else 75, "inject": True} for i in range(10 if q else 14)]
     out += [{"name": f"concurrent-plain:{i}", "part": "conc", "trials": 4 if q else 40, "inject": False} for i in range(2)]
+    # the caching wrapper against the zone it wraps, at the first / last / a seeded instant of EVERY 32-day cache period 1800-2100 of every zone
+    k = 6 if q else 12
+    out += [{"name": f"zone-periods:{i}", "part": "periods", "i": i, "k": k, "probes": 3 if q else 6} for i in range(k)]
     return out
 
 
@@ -329,9 +332,57 @@ def run_conc(ctx, trials, inject):
                     ctx.V("C13:thread-local-culture", f"thread {t} formatting with its own current culture {Qc[i][1]!r} got {ans if not exc else exc}; alone it gets {exp.get(i)}", {"kind": "culture", "query": Qc[i]}); break
 
 
+def run_periods(ctx, i, k, probes):
+    """Caching zone == wrapped zone, period by period: a cache node covers one aligned 32-day period and must hold every interval that overlaps it."""
+    from pyoda_time import DateTimeZoneProviders
+    from vf import gen, zonewalk
+    rng = ctx.rng
+    tz = DateTimeZoneProviders.tzdb
+    ids = sorted(tz.ids)[i::k]
+    P = 32 * DAY
+    p_lo = (-170 * 366 * DAY) // P; p_hi = (131 * 366 * DAY) // P
+    for zid in ids:
+        cached = tz[zid]
+        plain = getattr(cached, "_time_zone", None) or getattr(cached, "_CachedDateTimeZone__time_zone", None)
+        if plain is None:
+            ctx.count("zones_without_caching_wrapper"); continue      # fixed zones are served unwrapped
+        multi = 0
+        # the wrapped zone's own interval list 1800-2100 is the expectation; the caching wrapper is probed at every transition, one ns before it,
+        # and at both ends of every period that contains a transition (plus a seeded sample of quiet periods), in seeded order
+        log, _ = zonewalk.walk(plain, p_lo * P, p_hi * P)
+        starts = [(-10**30 if r[0] is None else r[0]) for r in log]
+        trans = [r[0] for r in log[1:] if r[0] is not None]
+        periods = {}
+        for t in trans:
+            periods.setdefault(t // P, []).append(t)
+        pts = []
+        for p, ts in periods.items():
+            pts += [p * P, p * P + P - 1, p * P + rng.randrange(P)]
+            for t in ts: pts += [t, t - 1, t + 1]
+            if len(ts) >= 2:
+                multi += 1; ctx.key(("multi-transition-period", zid, p))
+        pts += [p * P + rng.choice([0, P - 1, rng.randrange(P)]) for p in rng.sample(range(p_lo, p_hi), probes * 20)]
+        rng.shuffle(pts)
+        import bisect
+        for t in pts:
+            if not (p_lo * P <= t < p_hi * P - 1): continue
+            inst = gen.ns_inst(t)
+            a_ = cached.get_zone_interval(inst)
+            ctx.ev(); ctx.counters["period_probes"] += 1
+            ra = zonewalk.rec_of(a_); rb = log[bisect.bisect_right(starts, t) - 1]
+            same = tuple(ra) == tuple(rb)
+            if not same or not ((ra[0] is None or ra[0] <= t) and (ra[1] is None or t < ra[1])):
+                ctx.V("C13:caching-zone-differs-from-wrapped-zone", f"{zid} at {t} (32-day period {t // P}, offset {t % P} ns): caching zone returns {ra}, the zone it wraps has {tuple(rb[:6])} there",
+                      {"kind": "periods", "zone": zid, "t": t}, ra, list(rb[:6]))
+        ctx.counters["multi_transition_periods"] += multi
+    ctx.sample({"kind": "periods", "zones": len(ids), "periods_per_zone": p_hi - p_lo, "probes_per_period": probes})
+
+
 def run(ctx, shard):
     for k in REQUIRED["any"] + ["yield_callbacks", "distinct_interleavings"]:
         ctx.counters.setdefault(k, 0)
+    if shard["part"] == "periods":
+        run_periods(ctx, shard["i"], shard["k"], shard["probes"]); return
     if shard["part"] == "history":
         run_history(ctx, shard["K"], shard["scale"], shard["cultures"])
     else:
